@@ -10,11 +10,13 @@ package main
 
 import (
 	"bytes"
+	"encoding/json"
 	"flag"
 	"fmt"
 	"html/template"
 	"io"
 	"os"
+	"os/exec"
 	"sort"
 	"strings"
 	"sync"
@@ -755,7 +757,15 @@ func c16Body(f c16Format, id int, tmpl *tabular.Cell, out *[]string, yield func(
 	yield("AppendNewRow + 3 cells")
 	// its outer cells are the same two strings (of different display width) in every thread's table: whatever the
 	// library remembers about a string across tables is looked up again by the other threads
-	t.AppendNewRow().Add(tabular.NewCell("repeat-wide-ｗｗ")).Add(tabular.NewCell(10 * id)).Add(tabular.NewCell("rep-é"))
+	// the middle cell holds a value of the SAME type in every thread, empty (encodes as {}) in even threads, not in odd ones
+	labels := map[string]int{}
+	if id%2 == 1 {
+		labels["k"] = id
+	}
+	t.AppendNewRow().Add(tabular.NewCell("repeat-wide-ｗｗ")).Add(tabular.NewCell(labels)).Add(tabular.NewCell("rep-é"))
+	// the header follows the table's growth (a row wider than the header would make JSON refuse the table)
+	yield("AddHeaders(3)")
+	t.AddHeaders("k1", "k2", "k3")
 	var cblog []string
 	yield("RegisterPropertyCallback")
 	if err := t.RegisterPropertyCallback(t, tabular.CB_AT_RENDER_PRECELL, tabular.CB_ON_CELL, &c16CB{&cblog, tag}); err != nil {
@@ -822,16 +832,34 @@ func runC16(x *X) {
 		schCommon(x, c, "C16", res, []string{"family:cold-start", "first_use_in_process"}, desc)
 		x.Nontrivial(desc)
 	})
-	// outputs of each body when run alone: one managed thread, so that the run starts from the same clean
-	// state (empty pools) as every explored execution
+	// outputs of each body when run alone: each in a FRESH PROCESS of this very binary (one managed thread), so that
+	// nothing any other table has ever done in a process - not even a one-way latch in package state - is part of
+	// the reference.  Falls back to an in-process run if the binary cannot be re-executed.
 	alone := map[string][]string{}
+	exe, exeErr := os.Executable()
 	for i, f := range formats {
 		for id := 0; id < 3; id++ {
 			var out []string
-			tmpl := c16Template()
-			f, id := f, id
-			vrt.Run([]func(){func() { c16Body(f, id, &tmpl, &out, func(string) {}) }}, func(vrt.PointInfo) int { return 0 }, false, 200000)
+			fresh := false
+			if exeErr == nil {
+				if b, err := exec.Command(exe, "c16alone", fmt.Sprint(i), fmt.Sprint(id)).Output(); err == nil && json.Unmarshal(b, &out) == nil {
+					fresh = true
+				}
+			}
+			if !fresh {
+				x.Note("alone_reference_computed_in_process")
+				out = nil
+				tmpl := c16Template()
+				f, id := f, id
+				vrt.Run([]func(){func() { c16Body(f, id, &tmpl, &out, func(string) {}) }}, func(vrt.PointInfo) int { return 0 }, false, 200000)
+			}
 			alone[fmt.Sprint(i, id)] = out
+			// sanity of the driver itself: a thread whose own render is refused explores nothing of that renderer
+			for _, o := range out {
+				if strings.HasPrefix(o, "render ") && !strings.Contains(strings.SplitN(o, "\n", 2)[0], "err=<nil>") {
+					panic("harness: the C16 thread body for format " + f.name + " does not render: " + strings.SplitN(o, "\n", 2)[0])
+				}
+			}
 		}
 	}
 	if coldOuts != nil {
@@ -933,6 +961,21 @@ func init() {
 		Run: runC16,
 	})
 	extraCommands["racepass"] = racePass
+	// c16alone <format index> <thread id>: the body of one C16 thread alone in this (fresh) process; prints its outputs as JSON
+	extraCommands["c16alone"] = func(args []string) {
+		var fi, id int
+		if len(args) != 2 {
+			os.Exit(2)
+		}
+		fmt.Sscan(args[0], &fi)
+		fmt.Sscan(args[1], &id)
+		formats := c16Formats()
+		var out []string
+		tmpl := c16Template()
+		vrt.Run([]func(){func() { c16Body(formats[fi], id, &tmpl, &out, func(string) {}) }}, func(vrt.PointInfo) int { return 0 }, false, 200000)
+		b, _ := json.Marshal(out)
+		os.Stdout.Write(b)
+	}
 	extraCommands["selftest-reset"] = func(args []string) {
 		if vrt.ResetHook == nil {
 			os.Exit(1)
